@@ -30,7 +30,7 @@ BASE_ASSUMPTIONS = [
 
 ASM_ASSUME = ["operand strings reach the operand classes through Operand.create_from_str unchanged (the classification cascade itself is only checked structurally)"]
 
-prop("C01", ["TAB-1", "TAB-3", "TAB-4", "ENC-1", "ENC-2", "ENC-5", "WID-1", "WID-3", "WID-5", "LAY-5"],
+prop("C01", ["TAB-1", "TAB-3", "TAB-4", "ENC-1", "ENC-2", "ENC-5", "ENC-7", "WID-1", "WID-3", "WID-5", "LAY-5"],
      "every cell and flag of INSTRUCTIONS equals the MC6809 datasheet map; each operand class reads its own table column and rejects instructions lacking the mode; "
      "on every return path of both indexed encoders the post-byte, the size increment and the width of the offset bytes equal the datasheet form that the path's "
      "conditions describe (register field, 5/8/16-bit two's complement offsets, accumulator offsets, auto inc/dec, PCR, [n], indirect bit); PSH/PUL masks and TFR/EXG "
@@ -49,7 +49,7 @@ prop("C03", ["REL-1", "REL-3", "REL-5", "ENC-1", "ENC-3", "TAB-1", "TAB-2"],
      "that sums max_size over a window covering the displacement including the instruction itself, thresholds 127/128; label+n operands take their index through the address-expression predicate "
      "at all three sites; the PCR offset is target - own address - own size rendered at the chosen width; label,PCR offers post-bytes 8C/8D (9C/9D).",
      "numeric correctness at every distance and for every combination of mutually dependent unsized statements (only margins and identities).", ASM_ASSUME)
-prop("C04", ["EXP-1", "LAY-1", "LAY-3", "WID-3", "WID-6", "ENC-6", "ESC-1", "REL-3", "REL-5"],
+prop("C04", ["EXP-1", "LAY-1", "LAY-3", "WID-3", "WID-6", "ENC-6", "ENC-7", "ESC-1", "REL-3", "REL-5"],
      "each operator arm of ExpressionValue.resolve applies its own operator to (left, right) in that order and both operands are looked up independently; symbol collection precedes resolution "
      "over all statements (definition order irrelevant); undefined symbols raise; width predicates and two's-complement modulus follow the field width; statement-level handlers turn arithmetic errors "
      "(division by zero, out-of-range results) into a TranslationError.",
@@ -86,7 +86,7 @@ prop("C11", ["CLI-1", "VF-1", "VF-3", "CAS-3", "CAS-1", "CAS-5", "DSK-2", "DSK-3
      "builds the container of its kind and adds that very object; cassette/disk blocks are dominated by the no-name guard; BinaryFile appends the data only; containers do not consume the data "
      "(the same object is written to several containers).",
      "that listing the produced image returns the program (C06/C07); END operand as entry address.")
-prop("C12", ["WID-1", "WID-3", "WID-5", "WID-6", "LAY-5", "ENC-4", "ENC-5", "TAB-1", "TAB-2", "TAB-3", "TAB-4"],
+prop("C12", ["WID-1", "WID-3", "WID-5", "WID-6", "LAY-5", "ENC-4", "ENC-5", "ENC-7", "TAB-1", "TAB-2", "TAB-3", "TAB-4"],
      "modes the instruction lacks are rejected by every operand class; table cells exist only where the CPU has the mode; register recognition: every return path of the indexed encoders is realised "
      "by a grammar-valid operand only (probe spellings outside the grammar must raise); PSH/PUL/TFR/EXG reject unknown, own-stack and mixed-size registers; parse-time numeric limits; the width of "
      "`additional` at every sink against the mode's width.",
@@ -114,7 +114,7 @@ prop("C17", ["DET-1", "DET-2", "DET-3", "DET-4", "DET-5", "DET-6"],
      "shared default objects are never mutated; the source-line list is only read; no iteration over sets, no hash/id/time/random/environment reads in the core; no memoisation. Each rule carries "
      "an embedded bad/good canary pair evaluated on every run.",
      "nothing further under the assumption of insertion-ordered dicts.", ["dict insertion order (Python >= 3.7)"])
-prop("C18", ["TXT-1", "EXP-1", "LAY-1", "WID-3", "DIR-1", "REL-1", "REL-5"],
+prop("C18", ["TXT-1", "EXP-1", "LAY-1", "WID-3", "DIR-1", "REL-1", "REL-5", "ENC-7"],
      "the mnemonic is upper-cased before lookup; the line pattern splits label/mnemonic/operands for any amount of white space; accumulator offsets are recognised by whole-string comparison "
      "(no substring tests on operand text); addresses are prefix-determined (single forward pass); one-byte width only for values <= 255.",
      "the metamorphic relations themselves (relocation, renaming, reformatting) for concrete programs.", ASM_ASSUME)
